@@ -850,3 +850,4 @@ func H_C02_serix_map() {
 }
 
 
+
